@@ -45,14 +45,21 @@ Fixpoint settle_app (c : cfg) (fuel : nat) (s : state) : state :=
            end
   end.
 
-(* alternate applier progress and progress of blocked client threads until nothing moves *)
+(* alternate applier progress and progress of blocked client threads until nothing moves: until neither the applier
+   (without a token) nor any of the listed threads has an enabled step *)
+Definition can_move (c : cfg) (s : state) (tids : list nat) : bool :=
+  match app_free_step c s with
+  | Some _ => true
+  | None => existsb (fun tid => match mstep c s (LStep tid) with Some _ => true | None => false end) tids
+  end.
+
 Fixpoint settle (c : cfg) (rounds : nat) (s : state) (tids : list nat) : state :=
   match rounds with
   | O => s
   | S r =>
       let s1 := settle_app c 4000 s in
       let s2 := fold_left (fun st tid => run_client c 4000 st tid) tids s1 in
-      if (length (s_log s2) =? length (s_log s))%nat then s2 else settle c r s2 tids
+      if can_move c s2 tids then settle c r s2 tids else s2
   end.
 
 Definition do_call (c : cfg) (s : state) (tid : nat) (o : op) (blocked : list nat) : state :=
